@@ -12,6 +12,11 @@ from .common import FORCE, sigma_xy, call_name, norm_stmt, stmt_calls, facts_tex
 
 NONDET_CALLS = {"random", "uniform", "gauss", "randint", "choice", "shuffle", "sample", "time", "perf_counter", "monotonic",
                 "urandom", "uuid4", "now", "getrandbits", "seed"}
+from framelint.canon import canon_function as _canon_function_expanded
+
+def canon_function(fi, model=None, opts=None):   # rules of this file match shapes: look through every local
+    return _canon_function_expanded(fi, model, opts, expand=True)
+
 
 
 def _position_writes(ctx: Ctx, f):
